@@ -474,6 +474,8 @@ pub fn spaces(tier: Tier) -> Vec<Space<'static>> {
     sp.push(Space::new("d1q", d1q.len() as u64, move |i, acc| check_doc(&d1q[i as usize], acc, true)));
     let ko = refmodel::gen::keyorder_docs();
     sp.push(Space::new("key-order objects (byte order != length order != case order)", ko.len() as u64, move |i, acc| check_doc(&ko[i as usize], acc, false)));
+    let sk = refmodel::gen::strkey_docs();
+    sp.push(Space::new("special-character keys (every key and pair of keys from SSTR)", sk.len() as u64, move |i, acc| check_doc(&sk[i as usize], acc, false)));
     let co = case_objects();
     sp.push(Space::new("case-variant-objects", co.len() as u64, move |i, acc| check_doc(&co[i as usize], acc, false)));
     // casts on every scalar of SW + B64 + SSTR
